@@ -44,42 +44,105 @@ def run(ctx):
     nblocks = 0
     for name in LOADERS:
         f = P.fn(name, PR)
-        cz = Canon(f)
-        crc_calls = f.calls("carquet_crc32")
+        # the CRC may be computed and compared in a static helper: helpers are expanded for reading the
+        # arguments, and a call to a helper that reaches carquet_crc32 counts as the CRC event in the CFG
+        view = P.inlined(f, 2, keep=tuple(sorted(set(CONSUMERS) | set(LOADERS) | {"decompress_page", "read_at"})))
+        cz = Canon(view)
+        crc_calls = view.calls("carquet_crc32")
         key0 = "%s:%s" % (PR, name)
         if len(crc_calls) != 1:
-            ctx.bad("R6.crc-gate", "crc-call|" + key0, P.where(f.body),
-                    "%s computes the page CRC exactly once" % name, "found %d calls" % len(crc_calls))
+            ctx.ob("R6.crc-gate", "crc-call|" + key0, P.where(f.body),
+                   "%s computes the page CRC exactly once" % name, False, "found %d calls" % len(crc_calls)) \
+                if len(crc_calls) == 0 and not _crc_helpers(P, f) else \
+                ctx.inconclusive("R6.crc-gate", "crc-call|" + key0, P.where(f.body),
+                                 "%s computes the page CRC exactly once" % name, "found %d calls" % len(crc_calls))
             continue
         nblocks += 1
         crc = crc_calls[0]
-        # the comparison: an if whose condition compares a value derived from the crc call with header.crc
+        helpers = _crc_helpers(P, f)
+
+        def has_crc_event(n_):
+            return any(x.k == "CallExpr" and (x.callee == "carquet_crc32" or x.callee in helpers) for x in n_.walk())
+        # the comparison: an if (of the loader itself) whose condition contains the CRC event or compares a
+        # local computed from it with the header's crc; one of its arms returns CRC_MISMATCH
+        crc_locals = set()
+        for n in f.body.walk():
+            if n.k == "DeclStmt":
+                for d_, init in zip(n.get("decls", []), n.c):
+                    if init is not None and has_crc_event(init):
+                        crc_locals.add(d_.get("d"))
+            elif is_assign(n) and n.c[0].strip().k == "DeclRefExpr" and has_crc_event(n.c[1]):
+                crc_locals.add(n.c[0].strip().get("d"))
         cmp_if = None
         for n in f.body.walk():
             if n.k == "IfStmt":
                 cond = [x for x in n.c if x is not None][0]
-                t = cz(cond)
-                if t[0] == "bin" and t[1] in ("!=", "==") and \
-                        any(s[0] == "call" and s[1] == ("func", "carquet_crc32") for s in subtrees(t)) and \
-                        any(s[0] == "member" and s[2] == "crc" for s in subtrees(t)):
-                    cmp_if = (n, cond, t)
+                if has_crc_event(cond) or any(x.k == "DeclRefExpr" and x.get("d") in crc_locals for x in cond.walk()):
+                    kids_ = [x for x in n.c if x is not None]
+                    arms = [("then", kids_[1])] + ([("else", kids_[2])] if len(kids_) > 2 else [])
+                    for an, arm_ in arms:
+                        if any(r.k == "ReturnStmt" and r.c and r.c[0] is not None and r.c[0].cv == 71 for r in arm_.walk()):
+                            cmp_if = (n, cond, an)
         if cmp_if is None:
-            ctx.bad("R6.crc-gate", "crc-compare|" + key0, P.where(crc),
-                    "%s compares the computed CRC with page_header.crc" % name)
+            ctx.inconclusive("R6.crc-gate", "crc-compare|" + key0, P.where(f.body),
+                             "%s compares the computed CRC with page_header.crc" % name,
+                             "no if over the CRC result with a CRC_MISMATCH exit recognised")
             continue
-        ifn, cond, t = cmp_if
+        ifn, cond, mism_arm = cmp_if
+        # the value compared with the CRC is the header's crc field (also through locals / out-parameters)
+        tags = {}
+        for n in view.body.walk():
+            tgt_, rhs_ = None, None
+            if is_assign(n) and n.op == "=":
+                tgt_, rhs_ = src(n.c[0].strip_casts()), n.c[1]
+            elif n.k == "DeclStmt":
+                for d_, init in zip(n.get("decls", []), n.c):
+                    if init is not None:
+                        tg = set()
+                        if any(x.k == "CallExpr" and x.callee == "carquet_crc32" for x in init.walk()):
+                            tg.add("crc32")
+                        if any(x.k == "MemberExpr" and x.name == "crc" for x in init.walk()):
+                            tg.add("hdr")
+                        if tg:
+                            tags.setdefault(d_["n"], set()).update(tg)
+                continue
+            if tgt_ is None:
+                continue
+            if any(x.k == "CallExpr" and x.callee == "carquet_crc32" for x in rhs_.walk()):
+                tags.setdefault(tgt_, set()).add("crc32")
+            if any(x.k == "MemberExpr" and x.name == "crc" for x in rhs_.walk()):
+                tags.setdefault(tgt_, set()).add("hdr")
+
+        def side_tags(e_):
+            tg = set()
+            if any(x.k == "CallExpr" and x.callee == "carquet_crc32" for x in e_.walk()):
+                tg.add("crc32")
+            if any(x.k == "MemberExpr" and x.name == "crc" for x in e_.walk()):
+                tg.add("hdr")
+            tg |= tags.get(src(e_.strip_casts()), set())
+            return tg
+        vcmp = None
+        for n in view.body.walk():
+            if n.k == "BinaryOperator" and n.op in ("!=", "=="):
+                a_, b_ = side_tags(n.c[0]), side_tags(n.c[1])
+                if ("crc32" in a_ and "hdr" in b_) or ("hdr" in a_ and "crc32" in b_):
+                    vcmp = n
+        ctx.ob("R6.crc-gate", "crc-compare|" + key0, P.where(ifn),
+               "%s compares the computed CRC with page_header.crc" % name, vcmp is not None,
+               src(vcmp)[:100] if vcmp is not None else "no comparison of the computed CRC with the stored one found")
+        t = ("bin", "!=" if mism_arm == "then" else "==")
         # CRC arguments: (stored bytes, compressed_page_size)
         args = [cz(a) for a in crc.args()]
         size_ok = any(s[0] == "member" and s[2] == "compressed_page_size" for s in subtrees(args[1]))
-        ctx.ob("R6.crc-gate", "crc-size|" + key0, P.where(crc),
+        ctx.ob("R6.crc-gate", "crc-size|" + key0, P.where(ifn),
                "the CRC is computed over compressed_page_size bytes", size_ok, show(args[1]))
         # the same pointer is what the consumers read
         ptr_t = args[0]
         users = []
-        for c in f.calls("decompress_page"):
+        for c in view.calls("decompress_page"):
             users.append(("decompress_page", cz(c.args()[1])))
         ptr_ok = all(u[1] == ptr_t for u in users) and bool(users)
-        ctx.ob("R6.crc-gate", "crc-bytes|" + key0, P.where(crc),
+        ctx.ob("R6.crc-gate", "crc-bytes|" + key0, P.where(ifn),
                "the checksummed pointer is the one handed to decompress_page", ptr_ok,
                "crc over %s; consumers read %s" % (show(ptr_t), [show(u[1]) for u in users]))
         kids = [x for x in ifn.c if x is not None]
@@ -99,7 +162,8 @@ def run(ctx):
         cmp_nodes = set(x.i for x in cond.walk())
 
         def is_cmp(e):
-            return e.i in cmp_nodes and e.k == "BinaryOperator" and e.op in ("!=", "==")
+            return e.i in cmp_nodes and ((e.k == "BinaryOperator" and e.op in ("!=", "==")) or
+                                         (e.k == "CallExpr" and e.callee in helpers))
 
         def is_consumer(e):
             if e.k == "CallExpr" and e.callee in CONSUMERS:
@@ -121,23 +185,22 @@ def run(ctx):
                "with has_crc && verify_checksums, %s cannot reach a consumer of page bytes without the "
                "CRC comparison" % name, w is None,
                "path: %s" % describe_path(f, f.cfg, w) if w else "")
-        # the enabling condition is exactly has_crc && verify_checksums
-        outer = None
-        for a in crc.ancestors():
-            if a.k == "IfStmt":
-                c0 = [x for x in a.c if x is not None][0]
-                if _mentions(c0, "has_crc"):
-                    outer = c0
-        okc = outer is not None and _mentions(outer, "verify_checksums") and \
-            not any(x.k == "BinaryOperator" and x.op == "||" for x in outer.walk()) and \
-            not any(x.k == "UnaryOperator" and x.op == "!" for x in outer.walk())
-        ctx.ob("R6.crc-gate", "crc-enable|" + key0, P.where(crc),
-               "verification is enabled by has_crc && options.verify_checksums (nothing else)", okc,
-               src(outer) if outer is not None else "")
+        # the enabling condition is exactly has_crc && verify_checksums: the conditions that govern the CRC
+        # call (enclosing branches and preceding early exits, in the loader or in the helper that holds the
+        # call) are evaluated as a truth table over the two flags
+        en = _enable_table(crc)
+        if en is None:
+            ctx.inconclusive("R6.crc-gate", "crc-enable|" + key0, P.where(ifn),
+                             "verification is enabled by has_crc && options.verify_checksums (nothing else)",
+                             "the conditions governing the CRC call mention something else")
+        else:
+            ctx.ob("R6.crc-gate", "crc-enable|" + key0, P.where(ifn),
+                   "verification is enabled by has_crc && options.verify_checksums (nothing else)",
+                   en == {(h_, v_): bool(h_ and v_) for h_ in (0, 1) for v_ in (0, 1)}, str(en))
     ctx.floor("C14 loaders with a CRC block", nblocks, 4)
 
     # ---- writer
-    fin = P.fn("carquet_page_writer_finalize", PW)
+    fin = P.inlined(P.fn("carquet_page_writer_finalize", PW), 2)     # field/assembly helpers expanded
     cz = Canon(fin, inline=False)
     cc = fin.calls("carquet_crc32")
     if len(cc) != 1:
@@ -244,6 +307,92 @@ def run(ctx):
         ctx.ob("R5.agree", "crc-entry|%s:%s" % (CRC, ep), P.where(f.body),
                "%s passes its own (data, length) and %s to the core routine"
                % (ep, "initial value 0" if ep == "carquet_crc32" else "the running crc"), okd)
+
+
+def _enable_table(crc):
+    """{(has_crc, verify): is the CRC computed} from the conditions governing the call; None when a
+    governing condition depends on anything but the two flags."""
+    def atoms(c):
+        return set(x.name for x in c.walk() if x.k == "MemberExpr" and x.name in ("has_crc", "verify_checksums"))
+
+    def pure(c):
+        for x in c.walk():
+            if x.k in ("CallExpr",):
+                return False
+            if x.k == "MemberExpr" and x.name not in ("has_crc", "verify_checksums", "options"):
+                return False
+            if x.k == "DeclRefExpr" and x.get("dk") == "local":
+                return False
+        return True
+
+    def ev(c, env):
+        c = c.strip()
+        if c.k == "BinaryOperator" and c.op in ("&&", "||"):
+            a, b = ev(c.c[0], env), ev(c.c[1], env)
+            return (a and b) if c.op == "&&" else (a or b)
+        if c.k == "UnaryOperator" and c.op == "!":
+            return not ev(c.c[0], env)
+        if c.k == "BinaryOperator" and c.op in ("==", "!=") and c.c[1].cv in (0, 1):
+            v = ev(c.c[0], env)
+            return (v == bool(c.c[1].cv)) if c.op == "==" else (v != bool(c.c[1].cv))
+        x = c.strip_casts()
+        if x.k == "MemberExpr" and x.name == "has_crc":
+            return bool(env[0])
+        if x.k == "MemberExpr" and x.name == "verify_checksums":
+            return bool(env[1])
+        raise ValueError
+    conds = []       # (cond, must_be)
+    child = crc
+    for a in crc.ancestors():
+        if a.k == "IfStmt":
+            kids = [x for x in a.c if x is not None]
+            if atoms(kids[0]):
+                inthen = any(y is child for y in [kids[1]]) or _inside(child, kids[1])
+                conds.append((kids[0], inthen))
+        if a.k == "CompoundStmt":
+            # early exits that precede the call at this level
+            for st in a.kids():
+                if st is child or _inside(child, st):
+                    break
+                if st.k == "IfStmt":
+                    kids = [x for x in st.c if x is not None]
+                    if atoms(kids[0]) and any(r.k == "ReturnStmt" for r in kids[1].walk()):
+                        conds.append((kids[0], False))
+        if a.k == "InlinedCall":
+            pass
+        child = a
+    if not conds:
+        return None
+    out = {}
+    try:
+        for h in (0, 1):
+            for v in (0, 1):
+                out[(h, v)] = all(ev(c, (h, v)) == want for c, want in conds)
+    except ValueError:
+        return None
+    return out
+
+
+def _inside(n, root):
+    x = n
+    while x is not None:
+        if x is root:
+            return True
+        x = x.parent
+    return False
+
+
+def _crc_helpers(P, f, depth=2):
+    """names of static helpers called by f (same file) that reach carquet_crc32"""
+    out = set()
+    if depth == 0:
+        return out
+    for c in f.calls():
+        for g in P.by_name.get(c.callee or "", []):
+            if g.file == f.file and g.static and g.key() != f.key():
+                if g.calls("carquet_crc32") or _crc_helpers(P, g, depth - 1):
+                    out.add(g.name)
+    return out
 
 
 def _crc_presence(ctx):
